@@ -282,3 +282,31 @@ package layer
 //@   loop 0 invariant[C07] forall j int :: 0 <= j && j <= rangeidx ==> !(attr == rangeslice[j] && opq)
 //@   ensures[C07] !childErr(mdRef(payload(n.fs.r)), n.id, whiteoutOpaqueDir) && (exists j int :: 0 <= j && j < len(n.fs.opaqueXattrs) && attr == n.fs.opaqueXattrs[j]) ==> (result1 == 0 && len(dest) >= len(opaqueXattrValue) && result0 == len(opaqueXattrValue)) || (result1 == syscall.ERANGE && len(dest) < len(opaqueXattrValue) && result0 == len(opaqueXattrValue))
 //@   ensures[C07] childErr(mdRef(payload(n.fs.r)), n.id, whiteoutOpaqueDir) && !(attr in n.attr.Xattrs) ==> result1 == syscall.ENODATA
+
+// ---- C13: on-demand reads and prefetch run as prioritized tasks ----
+// Every read of the layer's blob made on behalf of a file read (through the section reader the metadata and file readers
+// use) and the whole prefetch of a layer are bracketed as exactly one prioritized task each -- begun before the blob is
+// touched, ended on every return -- so that background fetching yields while they run and resumes afterwards
+// (prioBegun / prioDone: ghost record of the task manager calls).
+//@ ghost prioBegun int quiet
+//@ ghost prioDone int quiet
+//@ func task.(*BackgroundTaskManager).DoPrioritizedTask
+//@   trusted
+//@   modifies prioBegun
+//@   ensures prioBegun == old(prioBegun) + 1
+//@ func task.(*BackgroundTaskManager).DonePrioritizedTask
+//@   trusted
+//@   modifies prioDone
+//@   ensures prioDone == old(prioDone) + 1
+//@ func (r *Resolver) Resolve$3
+//@   props C13
+//@   taggedonly
+//@   requires r != nil && r.backgroundTaskManager != nil && blobR != nil
+//@   assert[C13] before "return blobR.ReadAt(p, offset)" : prioBegun == old(prioBegun) + 1 && prioDone == old(prioDone)
+//@   ensures[C13] prioBegun == old(prioBegun) + 1 && prioDone == old(prioDone) + 1
+//@ func (l *layer) Prefetch$1
+//@   props C13
+//@   taggedonly
+//@   requires l != nil && l.resolver != nil && l.resolver.backgroundTaskManager != nil
+//@   assert[C13] before "err = l.prefetch(ctx, prefetchSize)" : prioBegun == old(prioBegun) + 1 && prioDone == old(prioDone)
+//@   ensures[C13] prioBegun == old(prioBegun) + 1 && prioDone == old(prioDone) + 1
